@@ -313,8 +313,11 @@ class DSDLDefinition(ReadableDSDLFile):
     @property
     def text(self) -> str:
         if self._text is None:
-            with open(self._file_path) as f:
-                self._text = str(f.read())
+            try:
+                with open(self._file_path) as f:
+                    self._text = str(f.read())
+            except UnicodeDecodeError as ex:
+                raise InvalidDefinitionError("The definition is not valid text: %s" % ex, path=self._file_path) from ex
         return self._text
 
     @property
